@@ -283,6 +283,10 @@ func respellSize(t *rapid.T, txt string, comments bool) string {
 		if i := strings.Index(w, "\n"); i >= 0 && comments && rapid.IntRange(0, 3).Draw(t, "innerComment") == 3 {
 			// a comment at the end of a line that lies inside the brackets
 			w = w[:i] + " //" + genComment(t) + w[i:]
+			if rapid.IntRange(0, 2).Draw(t, "secondCommentLine") == 2 {
+				// a second comment line in the same gap
+				w += " // " + genComment(t) + "\n"
+			}
 		}
 		return w
 	}
